@@ -183,6 +183,11 @@ macro_rules! impl_fieldlike {
                     FoldF { name: "Sum<&Self>", kind: FoldKind::Sum, f: |a, _| a.iter().sum() },
                     FoldF { name: "Product<Self>", kind: FoldKind::Product, f: |a, _| a.iter().copied().product() },
                     FoldF { name: "Product<&Self>", kind: FoldKind::Product, f: |a, _| a.iter().product() },
+                    // iterators whose size_hint lower bound is 0 although they yield items
+                    FoldF { name: "Sum<Self> over filter()", kind: FoldKind::Sum, f: |a, _| a.iter().copied().filter(|_| true).sum() },
+                    FoldF { name: "Sum<&Self> over filter()", kind: FoldKind::Sum, f: |a, _| a.iter().filter(|_| true).sum() },
+                    FoldF { name: "Product<Self> over filter()", kind: FoldKind::Product, f: |a, _| a.iter().copied().filter(|_| true).product() },
+                    FoldF { name: "Product<&Self> over flat_map()", kind: FoldKind::Product, f: |a, _| a.iter().flat_map(|x| Some(x)).product() },
                 ];
                 #[cfg(feature = "ark")]
                 {
